@@ -40,7 +40,7 @@ def copy_graph(g):
     return c
 
 
-def gen_graph(rng: random.Random, n_nodes: int, first_id: int = 1, origin=None):
+def gen_graph(rng: random.Random, n_nodes: int, first_id: int = 1, origin=None, speeds=None):
     """a strongly connected street graph: jittered grid nodes, a one-way ring, two-way and one-way chords, link lengths a
     bit longer than the crow flies, speeds varying by a factor of ten"""
     import networkx as nx
@@ -65,7 +65,7 @@ def gen_graph(rng: random.Random, n_nodes: int, first_id: int = 1, origin=None):
             return
         (x1, y1), (x2, y2) = pts[u - first_id], pts[v - first_id]
         length = math.hypot(x2 - x1, y2 - y1) * rng.uniform(1.0, 1.3) + 1.0
-        g.add_edge(u, v, length=length, speed_kmph=rng.choice([5.0, 8.0, 15.0, 25.0, 40.0, 60.0]))
+        g.add_edge(u, v, length=length, speed_kmph=rng.choice(speeds or [5.0, 8.0, 15.0, 25.0, 40.0, 60.0]))
 
     ids = list(range(first_id, n_nodes + first_id))      # junction numbers start at 1, or at 0 (re-indexed graphs)
     order = list(ids)
@@ -338,7 +338,7 @@ def write_records(path: Path, job: Dict[str, Any]) -> Dict[str, Any]:
             if kind == "dogleg":
                 g = gen_dogleg_graph(rng, job.get("scale_km", 8.0))
             else:
-                g = gen_graph(rng, job["nodes"], first_id=job.get("first_id", 1), origin=job.get("origin"))
+                g = gen_graph(rng, job["nodes"], first_id=job.get("first_id", 1), origin=job.get("origin"), speeds=job.get("speeds"))
                 if job.get("parallel", True):
                     add_parallel_links(g, rng, max(1, job["nodes"] // 4))
                 if job.get("split_junction"):
@@ -362,7 +362,20 @@ def write_records(path: Path, job: Dict[str, Any]) -> Dict[str, Any]:
             d2, _ = position(view, str(d.link_id), rng.choice(["start", "mid", "end"]), rng)
             w(route_record(view, rn, "osm", f"{job['id']}#again{k}", o2, d2, cls + "/asked_again", with_pi=not fw and job.get("with_pi", True)))
             n_routes += 1
+        # positions of vehicles under way: a vehicle that has covered part of a link in earlier steps stands on a cell that was
+        # interpolated along the link and lies a cell or two beside the line of cells the network draws for that link
         import h3
+        from nrel.hive.model.entity_position import EntityPosition
+
+        for k, (o, d, cls) in enumerate(again):
+            cells = view.cells(str(o.link_id))
+            c = cells[len(cells) // 2] if k % 2 else cells[rng.randrange(len(cells))]
+            beside = sorted(h3.k_ring(c, rng.choice([1, 1, 2])) - set(cells))
+            if not beside:
+                continue
+            o3 = EntityPosition(str(o.link_id), beside[rng.randrange(len(beside))])
+            w(route_record(view, rn, "osm", f"{job['id']}#underway{k}", o3, d, cls + "/vehicle_under_way", with_pi=not fw and job.get("with_pi", True)))
+            n_routes += 1
 
         for k in range(job.get("snaps", 40)):
             lat, lon = h3.h3_to_geo(rng.choice(view.cells(rng.choice(view.links))))
